@@ -324,7 +324,7 @@ def replay(v, native):
         p = subprocess.run([exe, 'c08_policy'], input=json.dumps(payload).encode(), stdout=subprocess.PIPE, stderr=subprocess.PIPE, env=env, timeout=60)
         if p.returncode == 101:
             return {'reproduced': v['kind'] == 'panic', 'stderr': p.stderr.decode('utf-8', 'replace')[-300:]}
-        got = json.loads(p.stdout.decode().strip().splitlines()[-1])['mode']
+        got = json.loads(p.stdout.decode().strip().split('\n')[-1])['mode']
         # the reference policy on the concrete instance
         have = bool(urls) and not inp.get('no_repo')
         ex, inc = inp['exclude'], inp['include']
